@@ -12,6 +12,7 @@ import (
 
 	"github.com/scionproto/scion/pkg/addr"
 
+	"example.com/scion-time/core/server"
 	"example.com/scion-time/net/ntske"
 	"example.com/scion-time/net/scion"
 	"example.com/scion-time/net/udp"
@@ -147,4 +148,40 @@ func fNewQUIC() string {
 func isQUICIOErr(s string) bool {
 	return strings.Contains(s, "stream") && strings.Contains(s, "canceled") || strings.Contains(s, "timeout: no recent network activity") ||
 		strings.Contains(s, "Application error")
+}
+
+// ---------------------------------------------------------------- real QUIC server
+
+var (
+	e2eQOnce     sync.Once
+	e2eQPort     int
+	e2eQProvider *ntske.Provider
+	e2eQIA       addr.IA
+)
+
+func e2eFetcherQUIC() *ntske.Fetcher {
+	e2eQOnce.Do(func() {
+		ia, err := addr.ParseIA("1-ff00:0:111")
+		if err != nil {
+			panic(err)
+		}
+		e2eQIA = ia
+		cert := selfSigned()
+		local := udp.UDPAddr{IA: ia, Host: &net.UDPAddr{IP: net.ParseIP("127.0.0.1").To4(), Port: 0}}
+		ln, err := scion.ListenQUIC(context.Background(), local, &tls.Config{
+			Certificates: []tls.Certificate{cert}, MinVersion: tls.VersionTLS13, NextProtos: []string{"ntske/1"}}, nil)
+		if err != nil {
+			panic("listen quic: " + err.Error())
+		}
+		e2eQPort = ln.Addr().(udp.UDPAddr).Host.Port
+		e2eQProvider = ntske.NewProvider()
+		go server.VerifC20RunNTSKEServerQUIC(context.Background(), nolog, ln, e2eNTPPort, e2eQProvider)
+	})
+	f := &ntske.Fetcher{}
+	f.Log = nolog
+	f.TLSConfig = tls.Config{InsecureSkipVerify: true, ServerName: "127.0.0.1", MinVersion: tls.VersionTLS13}
+	f.QUIC.Enabled = true
+	f.QUIC.LocalAddr = udp.UDPAddr{IA: e2eQIA, Host: &net.UDPAddr{IP: net.ParseIP("127.0.0.1").To4()}}
+	f.QUIC.RemoteAddr = udp.UDPAddr{IA: e2eQIA, Host: &net.UDPAddr{IP: net.ParseIP("127.0.0.1").To4(), Port: e2eQPort}}
+	return f
 }
